@@ -660,6 +660,9 @@ func (w *world) setMtu(e *endpoint, m int) {
 }
 
 func (w *world) setHandler(e *endpoint, mode int) {
+	if mode == 0 {
+		return // never registered
+	}
 	var err error
 	switch mode {
 	case 1:
